@@ -416,7 +416,11 @@ Definition step (fl : flags) (o : obj) (p : op) : option outcome :=
   | RemoveVertices ix => Some (remove_vertices fl o ix)
   | RemoveCells ix => Some (match ok o with OPoints => Failed TypeError o | _ => remove_cells fl o ix end)
   | SetValues id v => Some (set_values o id v)
-  | AddData id a k v => Some (add_data o id a k v)
+  | AddData id a k v =>
+      match ok o, a with
+      | OPoints, ACell => None   (* Points have no cell count (n_values is None): cell data on Points is outside the model *)
+      | _, _ => Some (add_data o id a k v)
+      end
   | MaskedCopy vm cm => Some (masked_copy o vm cm)
   | Reopen order => option_map Done (reopen o order)
   end.
@@ -434,8 +438,10 @@ Definition kid_ok (o : obj) (k : kid) : Prop :=
   | _, _ => True
   end.
 Definition cell_ok (n : nat) (c : list nat) : Prop := Forall (fun v => v < n) c.
+Definition not_cell (k : kid) : Prop := kassoc k <> ACell.
 Definition wf (o : obj) : Prop :=
-  Forall (cell_ok (length (verts o))) (cells o) /\ Forall (kid_ok o) (kids o) /\ (ok o = OPoints -> cells o = []).
+  Forall (cell_ok (length (verts o))) (cells o) /\ Forall (kid_ok o) (kids o) /\
+  (ok o = OPoints -> cells o = [] /\ Forall not_cell (kids o)).
 
 Definition kid_okb (o : obj) (k : kid) : bool :=
   match kvals k, kassoc k with
@@ -445,7 +451,8 @@ Definition kid_okb (o : obj) (k : kid) : bool :=
   end.
 Definition wfb (o : obj) : bool :=
   forallb (forallb (fun v => v <? length (verts o))) (cells o) && forallb (kid_okb o) (kids o)
-  && (negb (okind_eqb (ok o) OPoints) || match cells o with [] => true | _ => false end).
+  && (negb (okind_eqb (ok o) OPoints)
+      || (match cells o with [] => true | _ => false end) && forallb (fun k => negb (assoc_eqb (kassoc k) ACell)) (kids o)).
 
 (* the cells all of whose vertices are kept by a vertex mask (np.all(mask[cells], axis=1) on in-range cells) *)
 Definition cell_mask (m : list bool) (cs : list (list nat)) : list bool :=
